@@ -2227,6 +2227,7 @@ status_t Message :: TemplatedUnflatten(const Message & templateMsg, DataUnflatte
          if (ret.IsError())
          {
             LogTime(MUSCLE_LOG_DEBUG, "TemplatedUnflatten:  Error unflattening field [%s] [%s]\n", iter.GetKey()(), ret());
+            Clear();  // so that we don't leave a field with no items in it behind (FlattenedSize() and Flatten() can't handle those)
             return ret;
          }
       }
